@@ -103,6 +103,10 @@ func randRule(r *rand.Rand, wfOnly bool) genRule {
 		if !wfOnly && chance(r, 0.1) {
 			m = randFrom(r, append(msgAlphabet, ",", "'"), 0, 4)
 		}
+		if chance(r, 0.05) {
+			// messages that begin with / contain the label texts themselves (the message still gains its label)
+			m = pick(r, []string{"explain: x", "说明: x", "explain:", "说明:", "see the explain: column", "x 说明: y", "explain"})
+		}
 		g.msg = &m
 	}
 	return g
